@@ -7,6 +7,13 @@ ROOT = os.path.dirname(os.path.dirname(os.path.abspath(__file__)))
 ALL = ["C%02d" % i for i in range(1, 20)]
 
 CHECKS = {
+    "C08": {
+        "spec": "specs/Controllers.tla + ControllersTrace.tla",
+        "text": "Per controller kind (Linear, RelativeSupply, Stepwise, DemandSwitch) TLC checks the eleven formulas of C08 exhaustively over all pool states of the grid (fitness exactly on, below and above the thresholds) for families of parameters and of rule / slave tables in every declaration order; the state graph of a smaller family is emitted and an edge cover of it, plus random multi-step histories with pool changes between steps, is executed on the real controllers (regulate(), or Stepwise.run stepped under trio's MockClock) with recording rules / slaves; every trace is validated by TLC.",
+        "note": "1/16 grid for supply/demand, 1/4 grid for fitness, thresholds, scales, rate, interval; distinct thresholds; supply >= 0; slaves of the DemandSwitch are LinearControllers.",
+        "design": "5/C08, 4.9",
+        "technique": "TLA+ model checking (TLC) + edge-cover replay of the TLC state graph on the real controllers + trace validation",
+    },
     "C19": {
         "spec": "specs/Translate.tla + TranslateTrace.tla",
         "text": "TLC enumerates configuration trees (scalars, lists, mappings, typed mappings with working / raising / unresolvable factories, __args__ before or after the keyword items) to depth 2 (thorough: children from the full one-level family), checks the eight formulas of C19 on Translate.tla, and emits every tree; each tree (plus random trees to depth 5) is rendered with individually distinguishable fixture factories and translated by the real Translator, every second one twice from the same object; recorded factory calls, result and tokenised where-path are validated by TLC.",
